@@ -336,6 +336,7 @@ func (r *replayer) run(bi int, b behaviour) {
 		p := flags(pid)
 		p["reg"] = e.Exists
 		p["inHeap"] = e.InHeap
+		p["copies"] = e.HeapCopies
 		p["epaused"] = e.Paused
 		p["pending"] = e.Pending
 		p["enqueued"] = e.Enqueued
